@@ -23,7 +23,8 @@ RULE = ("every boolean mask (2^(H*W), all-masked excluded at class level) of eve
 EXHAUSTIVE = {
     "quick": "util level: all masks of all shapes with H*W <= 10; class level: all masks with >=1 unmasked pixel, H*W <= 8, "
              "4 (input form, store_native) modes rotating over Array2D/Grid2D/VectorYX2D; 1-D: all masks of length <= 8; "
-             "histories: one object history and one mask history per mask with >=1 unmasked pixel, H*W <= 8 (1-D: length <= 8)",
+             "histories: one object history and one mask history per mask with >=1 unmasked pixel and H*W <= 6, one of the two "
+             "(alternating) for H*W in {7, 8}; 1-D: one object history per mask of length <= 8",
     "thorough": "util level: H*W <= 14; class level: H*W <= 12; 1-D: length <= 12; histories: two per mask, H*W <= 10 (1-D: length <= 10)",
 }
 TRUSTED = ["hand-written Gallina model coq/Model/C01.v of array_2d_util / grid_2d_util / array_1d_util / mask_2d_util / mask_1d_util "
@@ -44,6 +45,7 @@ def all_masks(h, w):
 def vals(h, w, k):
     if k == 0: return [[1 + y * w + x for x in range(w)] for y in range(h)]
     if k == 2: return [[(y * w + 2 * x + y) % 3 - 1 for x in range(w)] for y in range(h)]      # exact zeros and ties
+    if k == 3: return [[(-1) ** (x + y) * ((3 + 2 * x + 7 * y) * 2 ** 30 + 1) for x in range(w)] for y in range(h)]   # > 24 significant bits
     return [[(-1) ** (x + y) * (3 + 2 * x + 7 * y + k) for x in range(w)] for y in range(h)]
 
 SCALES = [0, 0, -40, 40]            # values are multiplied by 2**e (exact in binary floating point) and divided back
@@ -112,12 +114,12 @@ def gen_inputs(tier, rng):
     for (h, w) in shapes_upto(nu):
         for m in all_masks(h, w):
             i += 1
-            yield {"op": "util", "m": m, "k": i % 3}
+            yield {"op": "util", "m": m, "k": i % 4}
     for (h, w) in shapes_upto(nc):
         for m in all_masks(h, w):
             if all(all(r) for r in m): continue
             i += 1
-            yield {"op": KINDS[i % 3], "m": m, "ni": bool(i & 1), "sn": bool(i & 2), "k": (i >> 2) % 3, "e": SCALES[(i >> 3) % 4]}
+            yield {"op": KINDS[i % 3], "m": m, "ni": bool(i & 1), "sn": bool(i & 2), "k": (i >> 2) % 4, "e": SCALES[(i >> 4) % 4]}
             if big or i % 5 == 0:
                 yield {"op": "array", "m": m, "ni": not bool(i & 1), "sn": not bool(i & 2), "k": 1}
     for n in range(1, n1 + 1):
@@ -126,34 +128,39 @@ def gen_inputs(tier, rng):
             i += 1
             yield {"op": "array1d" if i % 3 else "grid1d", "r": list(bits), "ni": bool(i & 1), "sn": bool(i & 2), "e": SCALES[(i >> 2) % 4]}
             yield {"op": "array1d", "r": list(bits), "ni": not bool(i & 1), "sn": bool(i & 4)}
-    # ---- histories (phase 2)
+    # ---- histories (phase 2): quick = every mask with H*W <= 6 gets an object history AND a mask history, the masks with
+    #      H*W in {7, 8} get one of the two (alternating); thorough = two of each for every mask with H*W <= 10
     hk = ["array", "grid", "array", "vector"]
     for (h, w) in shapes_upto(nh):
         for m in all_masks(h, w):
             if all(all(r) for r in m): continue
             for _ in range(2 if big else 1):
                 i += 1
-                cls = hk[i % 4]; sn = rng.random() < 0.6
-                yield {"op": "hist", "cls": cls, "m": m, "ni": rng.random() < 0.5, "sn": sn, "k": i % 3, "e": SCALES[(i >> 2) % 4],
-                       "ops": gen_ops(rng, m, sn, cls != "array")}
-                yield {"op": "maskhist", "m": m, "ops": gen_mops(rng, m)}
+                both = big or h * w <= 6
+                if both or i % 2 == 0:
+                    cls = rng.choice(hk); sn = rng.random() < 0.6
+                    yield {"op": "hist", "cls": cls, "m": m, "ni": rng.random() < 0.5, "sn": sn, "k": rng.randrange(4), "e": rng.choice(SCALES),
+                           "ops": gen_ops(rng, m, sn, cls != "array")}
+                if both or i % 2 == 1:
+                    yield {"op": "maskhist", "m": m, "ops": gen_mops(rng, m)}
     for n in range(1, nh + 1):
         for bits in itertools.product([False, True], repeat=n):
             if all(bits): continue
             i += 1
             sn = rng.random() < 0.6
             yield {"op": "hist", "cls": "array1d" if i % 3 else "grid1d", "m": [list(bits)], "ni": rng.random() < 0.5, "sn": sn,
-                   "k": i % 3, "e": SCALES[(i >> 2) % 4], "ops": gen_ops(rng, [list(bits)], sn, False)}
-    for _ in range(2000 if big else 150):
+                   "k": rng.randrange(4), "e": rng.choice(SCALES), "ops": gen_ops(rng, [list(bits)], sn, False)}
+    for _ in range(1500 if big else 150):
         h, w = rng.randint(3, 12), rng.randint(3, 12)
         p = rng.choice([0.1, 0.3, 0.5, 0.8])
         m = [[rng.random() < p for _ in range(w)] for _ in range(h)]
         if all(all(r) for r in m): m[rng.randrange(h)][rng.randrange(w)] = False
         yield {"op": "util", "m": m, "k": 1}
-        yield {"op": rng.choice(KINDS), "m": m, "ni": rng.random() < 0.5, "sn": rng.random() < 0.5, "k": rng.randint(0, 2),
+        yield {"op": rng.choice(KINDS), "m": m, "ni": rng.random() < 0.5, "sn": rng.random() < 0.5, "k": rng.randint(0, 3),
                "e": rng.choice(SCALES)}
+        if not big and _ % 3: continue
         sn = rng.random() < 0.6; cls = rng.choice(hk)
-        yield {"op": "hist", "cls": cls, "m": m, "ni": rng.random() < 0.5, "sn": sn, "k": rng.randint(0, 2), "e": rng.choice(SCALES),
+        yield {"op": "hist", "cls": cls, "m": m, "ni": rng.random() < 0.5, "sn": sn, "k": rng.randint(0, 3), "e": rng.choice(SCALES),
                "ops": gen_ops(rng, m, sn, cls != "array")}
         yield {"op": "maskhist", "m": m, "ops": gen_mops(rng, m)}
 
